@@ -334,6 +334,13 @@ def r4(ctx, R):
                 if wid in r:
                     R.bad(wm, w, "a zip save can reach this write before self.%s points into the "
                                  "temporary directory" % fld)
+    # directory output: is it also produced aside and moved, or written in place?
+    R.inst("directory output: produced aside and moved into place like the archive")
+    in_place = all(q.depends(wm, s_, lambda e: norm(e) == "self.is_zip", "T") for s_ in rep.get("temp_root", []))
+    if in_place:
+        R.bad(wm, wm.node, "a directory destination is written in place: a failed save leaves a partial directory at the "
+                           "path, which the next save rotates into _BAK1 as if it were a good generation",
+              stmt="directory destination written in place")
     # no write receives self.root
     for w in writes:
         for a in list(w.args) + [k.value for k in w.keywords]:
@@ -460,6 +467,17 @@ def r5(ctx, R):
             if not ok:
                 R.bad(f, st, "the created model is not stored in self.model by the creating statement: "
                              "a failure right after creation leaves it registered")
+    rp = ctx.func("serializer_6:RenameParser.get_instruction")
+    R.inst("reader: no other model is renamed aside before the load is known to succeed")
+    cls_ = ctx.cls("serializer_6:RenameParser")
+    at_parse = norm(cls_.consts.get("default_priority") or ast.Constant(0)) == "PriorityID.AT_PARSE"
+    ro = [n_ for n_ in walk_local(rp.node) if isinstance(n_, ast.Dict) and any(
+        isinstance(k_, ast.Constant) and k_.value == "rename_old" and isinstance(v_, ast.Constant) and v_.value is True
+        for k_, v_ in zip(n_.keys, n_.values))]
+    if at_parse and ro:
+        R.bad(rp, rp.node, "the model being read takes its name while the file is still being parsed and moves an open model "
+                           "of the same name aside (rename_old=True): if the load then fails, the partial model is closed "
+                           "but the existing model stays renamed to <name>_BAK<n>", stmt="rename_old at parse time")
     # close path
     mc = ctx.func("Model.close")
     R.inst("Model.close -> System.close_model")
